@@ -11,7 +11,7 @@ CLAIMED = {
 }
 CLAIMED["C18"] = dict(
     technique="CFG dominance of validate(ctx)? over all engine calls + range-check recognition with fail-closed edge analysis in validate (rustc MIR)",
-    text="For every argument value at once: the successful `validate(ctx)?` dominates every engine call of _mpc (no traffic, RNG draw or temp file before it), mpc() only builds the Context, and inside validate each caller-supplied index (p_own, p_eval, every p_out element), the input length, emptiness and duplicates of p_out and circuit.validate() reach a test whose rejecting edge can only construct Err. Structural necessary conditions; circuit-shape panics are handled by the C08/C18 index rules.",
+    text="For every argument value at once: the successful `validate(ctx)?` dominates every engine call of _mpc (no traffic, RNG draw or temp file before it), mpc() only builds the Context, and inside validate each caller-supplied index (p_own, p_eval, every p_out element), the input length, emptiness and duplicates of p_out and circuit.validate() reach a test whose rejecting edge can only construct Err. No panicking index by the position of an instruction, by Input.party / Input.input, and no range slice of a circuit vector with a bound from other counters. Structural necessary conditions.",
     note="Trusted: rustc MIR, garble_lang::Circuit::validate as the circuit validator. 'fail-closed' = no Ok(..) construction reachable from the rejecting edge.",
     ref="DESIGN.md §4 C18")
 CLAIMED["C19"] = dict(
@@ -20,11 +20,11 @@ CLAIMED["C19"] = dict(
     note="Trusted: tempfile_in is anonymous; std BufReader/BufWriter/Seek semantics.",
     ref="DESIGN.md §4 C19")
 _SRV_T = "state-machine extraction from rustc MIR of state.rs (events per basic block, per PolicyStateKind arm) + path/dominance queries (every-path-hits, fail-closed edges)"
-_SRV_N = "Trusted: rustc MIR; tokio Semaphore/Notify/mpsc/oneshot contracts; events of closures/async blocks attributed to their construction block. Structural: shows which transitions/replies/effects exist on which CFG paths for every interleaving, not liveness of the distributed run."
+_SRV_N = "Trusted: rustc MIR (normalised: new local helpers spliced into their callers, std adaptor models, variant threading - DESIGN.md 12.2); tokio Semaphore/Notify/mpsc/oneshot contracts; events of closures/async blocks attributed to their construction block. Structural: shows which transitions/replies/effects exist on which CFG paths for every interleaving, not liveness of the distributed run."
 CLAIMED["C13"] = dict(technique=_SRV_T, note=_SRV_N, ref="DESIGN.md §3 R9, §4 C13, Appendix C",
     text="The extracted (command x state) relation must contain every edge a compatible run needs, with replies and effects in dominance order on every successful path: leader chain validate-all -> reply Ok -> acquire -> run-all -> Validated -> self Run; both rendezvous arms reach Validated and answer both deferred replies Ok; constants accepted in Validated/SendingConsts/SendingConstsCompleted; check_consts dichotomy; all commands dispatched and handler Breaks propagated; the MPC task delivers at most one output per path, only after mpc, and sends Stop on every path; the permit lives in the MPC future. A missing/rerouted edge, dropped reply or second output alarms; supersets do not.")
 CLAIMED["C14"] = dict(technique=_SRV_T + "; reviewed panic table; command-scalar index rule", note=_SRV_N, ref="DESIGN.md §4 C14",
-    text="For every command kind and every state at once: fallback arms reply an error, restore the state, continue and have no side effect; no actor mutation lies on any CFG path before (or after) an InvalidState*/UnknownSender reply; the state test dominates the type check in schedule; no command-supplied scalar indexes a container unchecked; every panic-capable call in the actor is in a reviewed table; the panic arm of internal_consts_sent is unreachable by the extracted relation.")
+    text="For every command kind and every state at once: fallback arms reply an error, restore the state, continue and have no side effect; no actor mutation lies on any CFG path before (or after) an InvalidState*/UnknownSender reply; the state test dominates the type check in schedule; no command-supplied scalar indexes a container unchecked; every panic-capable call in the actor is in a reviewed table; every command is accepted in exactly the reviewed set of states; a peer queue is selected by the unmodified party id; an HTTP handle leaves the routing table only after its state machine ended; the panic arm of internal_consts_sent is unreachable by the extracted relation.")
 CLAIMED["C15"] = dict(technique=_SRV_T + "; Notify direction discipline", note=_SRV_N, ref="DESIGN.md §4 C15",
     text="For cancel at any state: handle_cmd breaks after cancel on every path; cancel consumes the actor; every arm answers on every path; client-owning arms call send_cancel exactly once before an Ok reply, Init/ValidateRequested never, Executing delegates to the task whose cancel branch calls send_cancel once; the two-Notify handshake is directional (the task waits on the Notify cancel() signals and signals the Notify cancel() awaits on every path to its end, after everything it sends; no body signals and awaits the same Notify); cancel never builds a second client and awaits the client back from the consts task; the Cancel arm does not touch the actor before cancel(); the HTTP cancel_all loop ends only when every cancel request finished.")
 CLAIMED["C16"] = dict(technique=_SRV_T + "; fail-closed comparison edges", note=_SRV_N, ref="DESIGN.md §4 C16",
@@ -32,9 +32,9 @@ CLAIMED["C16"] = dict(technique=_SRV_T + "; fail-closed comparison edges", note=
 CLAIMED["C17"] = dict(technique=_SRV_T + "; permit typestate by dominance", note=_SRV_N + " The numeric bound itself is the tokio semaphore's contract.", ref="DESIGN.md §4 C17",
     text="Permit typestate along the extracted relation: the only acquire_owned is in the leader branch of schedule and its completed await dominates run fan-out / Validated / self Run; the permit is taken exactly in run x Running before the spawn and bound inside the future that awaits polytune::mpc with no drop before the call; the Err edge of every joined RPC fan-out (validate, run, consts) ends the policy on every path, notifies the destination if present and never advances the state.")
 _R2_T = "abort-check discovery over rustc MIR: message components by structure-preserving value flow from each receive label, branch conditions classified by ingredients (received bit/MAC, Delta, key, open_commitment, clmul, literals), fail-closed edge analysis, dominance of uses, loop-bypass analysis; obligation table per label"
-_R2_N = "Trusted: rustc MIR; component = value reached from a receive result through structure-preserving edges inside the receiving function; abort check = one branch edge cannot reach Ok(..). Not decided: cryptographic sufficiency of the checks, forgery probability, weakened-but-still-keyed comparisons."
+_R2_N = "Trusted: rustc MIR (normalised: new local helpers spliced into their callers, std adaptor models, variant threading - DESIGN.md 12.2); component = value reached from a receive result through structure-preserving edges inside the receiving function; abort check = one branch edge cannot reach Ok(..). Not decided: cryptographic sufficiency of the checks, forgery probability, weakened-but-still-keyed comparisons."
 CLAIMED["C02"] = dict(technique=_R2_T, note=_R2_N, ref="DESIGN.md §3 R2, §4 C02, Appendix B",
-    text="For every protocol message that can influence an output bit, on every CFG path (= for every adversarial message, index, party): the demanded fail-closed checks exist with the right ingredients (R2.1), received bits are used only behind their MAC check (R2.3), absent shares are errors (R2.4), MAC-check loops cannot be shortened by peer-sized vectors (R2.5), no iteration bypasses a check except own-party skips (R2.7), equivocation-sensitive labels use verified broadcast (R2.6). Structural necessary conditions of integrity.")
+    text="For every protocol message that can influence an output bit, on every CFG path (= for every adversarial message, index, party): the demanded fail-closed checks exist with the right ingredients (R2.1), received bits are used only behind their MAC check (R2.3), absent shares are errors (R2.4), MAC-check loops cannot be shortened by peer-sized vectors (R2.5), no iteration bypasses a check except own-party skips (R2.7), equivocation-sensitive labels use verified broadcast (R2.6), every comparison of a compound abort condition rejects on its own (R2.10), no equality test is applied to a fold over a received vector (R2.8), the AEAD row key binds all GarblingKey fields (R2.key), symmetric commit/reveal folds bind the committer id (R3.bind-id). Structural necessary conditions of integrity.")
 CLAIMED["C03"] = dict(technique=_R2_T + "; decrypt result propagation", note=_R2_N, ref="DESIGN.md §4 C03",
     text="Per authenticated field of each online-phase message the consuming party has a fail-closed abort check (exists, right ingredients, dominates the use, every element and sender, absent => Err), masked inputs use the verified broadcast with conflict rejection, and AEAD failure of garble::decrypt is returned as Err.")
 CLAIMED["C04"] = dict(technique=_R2_T + "; must-precede across awaits by Ready-edge dominance; enumeration of shared-generator draws/clones", note=_R2_N + " Known findings (5, all challenge-generator timing/cloning) recorded in known_findings.json.", ref="DESIGN.md §3 R2/R3/R4, §4 C04",
@@ -65,8 +65,8 @@ CLAIMED["C12"] = dict(
     note="Trusted: channels are per-pair FIFO; distinctness of p_out is enforced by validate() (C18).",
     ref="DESIGN.md §3 R8, §4 C12")
 CLAIMED["C01"] = dict(
-    technique="sibling agreement of the instruction walkers (per-Op stream consumption counted on the CFG), register-machine discipline of the walks (store at inst.out, operand reads, read-before-store, operand dependence), batch-size provenance and flush-idiom rules, accumulate-once rule, no spontaneous abort on own values, literal-party-index rule (rustc MIR)",
-    text="Necessary conditions for all parties staying in step for every circuit, role assignment and batch count: the four loops over circ.insts consume the preprocessing streams identically per Op variant (random-share stream exactly once for Input/And, AND-share/table-share/garbled-gate streams only for And); batch-size methods read only num_inputs/num_and_ops, every flush comparison is `len >= bound` with a bound from these methods and every chunk_size_iter/chunks argument comes from them; every store into a register-indexed table inside a walk goes to inst.out, Xor/And arms read the table at both operand registers and Not at its operand, for Xor/Not the stored value is computed from those reads, and no operand read follows the store within an iteration (register reuse); a register slot accumulated from its own value is visited once per register; no fail-closed branch compares own secret values without a message component; no literal is used as a party index. Functional correctness of garbling/evaluation is value-level and not decided.",
+    technique="sibling agreement of the instruction walkers (per-Op stream consumption counted on the CFG), register-machine discipline of the walks (store at inst.out, operand reads, read-before-store, operand dependence), batch-size provenance and flush-idiom rules, accumulate-once rule, per-party table layout rule, no spontaneous abort on own values, literal-party-index rule (rustc MIR)",
+    text="Necessary conditions for all parties staying in step for every circuit, role assignment and batch count: the four loops over circ.insts consume the preprocessing streams identically per Op variant (random-share stream exactly once for Input/And, AND-share/table-share/garbled-gate streams only for And); batch-size methods read only num_inputs/num_and_ops, every flush comparison is `len >= bound` with a bound from these methods and every chunk_size_iter/chunks argument comes from them; every store into a register-indexed table inside a walk goes to inst.out, Xor/And arms read the table at both operand registers and Not at its operand, for Xor/Not the stored value is computed from those reads, and no operand read follows the store within an iteration (register reuse); a register slot accumulated from its own value is visited once per register; a vector looked up by party number is filled by party number (not by push in visiting order); no fail-closed branch compares own secret values without a message component; no literal is used as a party index. Functional correctness of garbling/evaluation is value-level and not decided.",
     note="Trusted: rustc MIR; garble_lang Op variant order. Value-level correctness (XOR/AES/AEAD algebra) needs execution or proof and is declined.",
     ref="DESIGN.md §4 C01")
 NA = {
